@@ -53,6 +53,7 @@ class UnitResult:
         self.unit = None
         self.canaries_ok = True
         self.raw_stderr = ""
+        self.degraded = []           # lost overlay hints: failures of this unit need a reproduced input before they count
 
     def to_json(self):
         return {k: getattr(self, k) for k in ("name", "status", "reason", "failures", "verified", "errors", "wall_s", "smt_ms", "cmd")}
@@ -63,6 +64,28 @@ def _fn_of_line(unit, line):
         if f["out_first"] <= line <= f["out_last"]:
             return f
     return None
+
+
+_SRC_CACHE = {}
+
+
+def _is_overlay_text(unit, span, snippet):
+    """True if the failing assertion text does not occur in the original source line (i.e. it was spliced in)."""
+    line = span["line_start"]
+    if not (1 <= line <= len(unit.map)):
+        return False
+    o = unit.map[line - 1]
+    if o.get("kind") != "src":
+        return False
+    path = os.path.join(getattr(unit, "repo", None) or extract.REPO, o["file"])
+    try:
+        if path not in _SRC_CACHE:
+            _SRC_CACHE[path] = open(path).read().split("\n")
+        src_line = _SRC_CACHE[path][o["line"] - 1]
+    except Exception:
+        return False
+    inner = snippet.strip()
+    return inner not in src_line and inner.replace(" ", "") not in src_line.replace(" ", "")
 
 
 def _canary_of_line(unit, line):
@@ -93,6 +116,7 @@ def run_unit(name, repo=None, rlimit=None, outdir=None, extra_args=(), solver=No
         res.wall_s = time.time() - t0
         return res
     res.unit = unit
+    res.degraded = list(unit.lost_hints)
     outdir = outdir or os.path.join(VERIF, "build")
     path = extract.write_unit(unit, outdir)
     cmd = ["verus", os.path.basename(path), "--output-json", "--time", "--error-format=json",
@@ -192,6 +216,10 @@ def run_unit(name, repo=None, rlimit=None, outdir=None, extra_args=(), solver=No
             if len(ps["text"]) > 1:
                 snippet += " ..."
         explicit = kind in ("post", "inv_entry", "inv_preserve", "decreases") or (kind == "pre" and tags)
+        if tags is None and kind == "assert" and fn is not None and _is_overlay_text(unit, ps, snippet):
+            # a proof hint spliced in by the overlay failed: every clause of the function may lean on it
+            tags = list(fn["props"])
+            label = "hint:" + _norm(snippet, 50)
         if tags is None:
             if fn is None:
                 tags = []
